@@ -359,12 +359,18 @@ def write_replay(mod, prop, tier, seed, case, violations) -> str:
             doc["replay_extra_error"] = repr(e)
     with open(path, "w") as f:
         json.dump(doc, f, indent=1)
-    if hasattr(mod, "standalone_script"):
-        try:
-            with open(path[:-5] + ".py", "w") as f:
-                f.write(mod.standalone_script(case, violations))
-        except Exception:
-            pass
+    try:  # a plain test that replays the case without the explorer (no pool, no driver)
+        with open(path[:-5] + "_test.py", "w") as f:
+            f.write(
+                '"""Replay of one violating case of %s without the explorer: python %s"""\n'
+                "import json, sys\nsys.path.insert(0, %r)\nfrom mc import compat\ncompat.setup()\n"
+                "from mc.checks import %s as mod\n\nCASE = json.loads(%r)\n\n\ndef test_replay():\n"
+                "    if hasattr(mod, 'worker_init'):\n        mod.worker_init()\n    out = mod.run_case(CASE)\n"
+                "    assert out['status'] != 'violation', out['violations']\n\n\nif __name__ == '__main__':\n    test_replay()\n    print('property holds on this case')\n"
+                % (prop, os.path.basename(path)[:-5] + "_test.py", compat.VERIF_ROOT, prop.lower(), json.dumps(case))
+            )
+    except Exception:
+        pass
     return path
 
 
